@@ -8,6 +8,7 @@ package c17
 import (
 	"bytes"
 	"crypto"
+	"crypto/ecdh"
 	"crypto/ecdsa"
 	"crypto/ed25519"
 	"crypto/elliptic"
@@ -38,9 +39,16 @@ const (
 	vValid   verdict = iota // the untouched token: must be accepted, otherwise the harness is blind
 	vBenign                 // same signed content, other encoding (or a genuine signature in another encoding): accept => unspecified
 	vHostile                // must be rejected by every consumer
+	// vOwn: a genuinely valid token of ANOTHER key holder (its own public key embedded where the protocol mandates an embedded key, or its own
+	// did:jwk as issuer), presented where the consumer does not pin the signer: accepting it is correct, refusing it is no violation either
+	// (a consumer need not support every key family). It is the paired control of the embedded-private-key variants: same key, same algorithm,
+	// same genuine signature, only the private members are absent.
+	vOwn
+	// vSilent: the property text does not decide the case (accept => unspecified)
+	vSilent
 )
 
-func (v verdict) String() string { return [...]string{"valid", "benign", "hostile"}[v] }
+func (v verdict) String() string { return [...]string{"valid", "benign", "hostile", "own-valid", "unspecified"}[v] }
 
 type variant struct {
 	class   string // stable class name (part of violation keys)
@@ -48,6 +56,13 @@ type variant struct {
 	token   string
 	body    any // consumer-specific complete message (JSON-LD document) used instead of token when non-nil
 	verdict verdict
+	// family: key family of the key this variant embeds ("" for variants that are not about a family)
+	family string
+	// pub: the key that made the signature when the variant is its author's own token (vOwn), for the independent verification
+	pub crypto.PublicKey
+	// jkt: RFC 7638 thumbprint of the embedded key. A consumer whose caller pins the signer by thumbprint (seed.callerBinds) pins THIS key
+	// for the variant, so that nothing but the rule under test can refuse it.
+	jkt string
 }
 
 // party is a key pair with the key id under which a consumer may know it.
@@ -75,6 +90,12 @@ type seed struct {
 	// b64(header) "." rawPayload with rawPayload known to the harness
 	detached   bool
 	rawPayload []byte
+	// callerBinds: the signer is pinned by a JWK thumbprint that the caller of the consumer supplies per call (DPoP validate endpoint with
+	// the harness in the role of the resource server): own-key variants carry the thumbprint to pin (variant.jkt)
+	callerBinds bool
+	// signerClaim: name of the payload claim that names the signer's DID (credential JWT: "iss") when ANY resolvable DID is a legitimate
+	// signer of its own token; the generator then also produces tokens whose signer is a did:jwk of each key family
+	signerClaim string
 }
 
 // ---- keys owned by the attacker (generated once per process; key values never influence verdicts) ----
@@ -86,12 +107,21 @@ var att struct {
 	rsa  *rsa.PrivateKey
 	ed   ed25519.PrivateKey
 	cert []byte // self-signed certificate for p256 (DER)
+	// further key families the JOSE library can parse
+	p521   *ecdsa.PrivateKey
+	x25519 *ecdh.PrivateKey
+	oct    []byte
+	fams   []keyFam
 }
 
 func attacker() {
 	att.once.Do(func() {
 		att.p256, _ = ecdsa.GenerateKey(elliptic.P256(), crand.Reader)
 		att.p384, _ = ecdsa.GenerateKey(elliptic.P384(), crand.Reader)
+		att.p521, _ = ecdsa.GenerateKey(elliptic.P521(), crand.Reader)
+		att.x25519, _ = ecdh.X25519().GenerateKey(crand.Reader)
+		att.oct = make([]byte, 32)
+		_, _ = crand.Read(att.oct)
 		att.rsa, _ = rsa.GenerateKey(crand.Reader, 2048)
 		_, att.ed, _ = ed25519.GenerateKey(crand.Reader)
 		tpl := &x509.Certificate{SerialNumber: big.NewInt(1), Subject: pkix.Name{CommonName: "attacker"}, NotBefore: time.Now().Add(-time.Hour), NotAfter: time.Now().Add(24 * time.Hour)}
@@ -334,12 +364,13 @@ func variants(s *seed, rnd *rand.Rand, bulk int) []variant {
 		panic("seed token does not parse: " + err.Error())
 	}
 	var out []variant
-	add := func(class, name, tok string, v verdict) {
-		if tok == s.compact && v != vValid {
+	emit := func(v variant) {
+		if v.token == s.compact && v.verdict != vValid {
 			return // the mutation was a no-op on this token
 		}
-		out = append(out, variant{class: class, name: name, token: tok, verdict: v})
+		out = append(out, v)
 	}
+	add := func(class, name, tok string, v verdict) { emit(variant{class: class, name: name, token: tok, verdict: v}) }
 	keep := func(h map[string]any) string { return encHdr(h) + "." + t.paySeg + "." + t.sigSeg } // header replaced, signature kept
 	origAlg, _ := t.hdr["alg"].(string)
 	with := func(kv ...any) map[string]any {
@@ -563,6 +594,9 @@ func variants(s *seed, rnd *rand.Rand, bulk int) []variant {
 		add("embedded-private-jwk", "legit-public-plus-bogus-d/sig-kept", keep(with("jwk", addD(t.hdr["jwk"]))), vHostile)
 	}
 
+	// J2. the embedded-key variants over every key family the JOSE library can parse (families_test.go)
+	familyVariants(s, t, with, emit)
+
 	// K. protected bytes altered (signature kept)
 	alterations(s, t, rnd, 6, add)
 
@@ -593,7 +627,7 @@ func variants(s *seed, rnd *rand.Rand, bulk int) []variant {
 				continue
 			}
 			p := res[rnd.Intn(len(res))]
-			add(base.class, base.name+"+"+p.class+":"+p.name, p.token, vHostile)
+			emit(variant{class: base.class, name: base.name + "+" + p.class + ":" + p.name, token: p.token, verdict: vHostile, family: base.family, jkt: base.jkt})
 		}
 	}
 	return out
